@@ -89,9 +89,12 @@ func PropC07(c *vs.Case, f Factory, o RolloutOpts) error {
 	if !o.Small {
 		env.OGStyle = c.Weighted(5, 1, 1, 1)
 		c.Class("observedGeneration-style-%d", env.OGStyle)
+		env.CondStyle = c.Weighted(4, 1, 1)
 	}
 	var log []string
-	c.Describe(func() any { return map[string]any{"scenario": scn, "steps": log, "ogStyle": env.OGStyle} })
+	c.Describe(func() any {
+		return map[string]any{"scenario": scn, "steps": log, "ogStyle": env.OGStyle, "condStyle": env.CondStyle}
+	})
 	sawTwoRevs := false
 	judged := func() error {
 		env.W.SyncAll()
@@ -208,8 +211,12 @@ func PropC08(c *vs.Case, f Factory, o RolloutOpts) error {
 	}
 	env.OGStyle = c.Weighted(5, 1, 1, 1)
 	c.Class("observedGeneration-style-%d", env.OGStyle)
+	env.CondStyle = c.Weighted(4, 1, 1)
+	c.Class("condition-style-%d", env.CondStyle)
 	var log []string
-	c.Describe(func() any { return map[string]any{"scenario": scn, "steps": log, "ogStyle": env.OGStyle} })
+	c.Describe(func() any {
+		return map[string]any{"scenario": scn, "steps": log, "ogStyle": env.OGStyle, "condStyle": env.CondStyle}
+	})
 	fairSync := func() (*SyncTrace, error) {
 		env.MakeHealthy()
 		env.W.SyncAll()
